@@ -160,6 +160,7 @@ RULE_BREAKERS = [
     ('select-as-scalar', 'SELECT (SELECT i FROM #t) FROM #t', None),
     ('select-in-arithmetic', 'SELECT 1 + (SELECT i FROM #t) FROM #t', None),
     ('pivot-subquery-in-from', 'SELECT * FROM (SELECT s, t, sum(i) FROM #t GROUP BY s, t PIVOT BY s, t)', None),
+    ('valid-date-leap', 'SELECT dt > 2016-02-29, i - 2016 - 02 - 29 FROM #t', None),
     ('valid-baseline', 'SELECT s, sum(i) FROM #t WHERE j > 0 GROUP BY s HAVING count(*) > 0 ORDER BY 2 DESC LIMIT 3', None),
     ('valid-in-subquery', 'SELECT i FROM #t WHERE i IN (SELECT j FROM #t)', None),
 ]
@@ -177,6 +178,12 @@ MALFORMED = ['', ' ', ';', 'SELECT', 'SELECT FROM', 'SELECT 1 FROM', 'SELECT 1,,
              'SELECT i BETWEEN 1', 'SELECT i IS', 'SELECT i IN', 'SELECT (1, )', 'SELECT (,)', 'SELECT i[1] FROM #t', 'SELECT i.[x]',
              'SELECT \x00', 'SELECT é', 'SELECT 1 FROM #t WHERE 1 = = 1', 'SELECT 1 FROM OPEN', 'SELECT 1 FROM OPEN ON',
              'SELECT 1 FROM CLOSE ON 2020-13-01', 'SELECT 1 FROM CLEAR CLEAR']
+
+
+# well-shaped dates that are no calendar dates are rejected by the parser wherever they stand (not re-read as subtractions)
+INVALID_DATES = ['SELECT 2014-13-01 FROM #t', 'SELECT i FROM #t WHERE i > 2014-02-30', 'SELECT i + 2015-02-29 FROM #t',
+                 'SELECT s, sum(i) FROM #t GROUP BY s HAVING sum(i) > 2020-01-00', 'SELECT abs(2020-00-10) FROM #t',
+                 'SELECT i FROM #t ORDER BY 2021-04-31', 'SELECT dt = 1900-02-29 FROM #t', 'SELECT 2014-13-01', 'SELECT 2100-02-29 - 1']
 
 
 def span_oracle(ctx, text, params=None):
@@ -214,6 +221,12 @@ def text_layer(ctx, tables):
         if not must_accept and out.startswith('OK'):
             ctx.record_violation('rule-not-enforced:' + name, '%s -> %s' % (text, out))
     conn = impl.connection(tables)
+    for text in INVALID_DATES:
+        out = impl.run_select(conn, text, None, execute=False)
+        ctx.evaluations += 1
+        ctx.count('invalid-date:' + canon_class(out))
+        if not out.startswith('ERR parse'):
+            ctx.record_violation('invalid-date-not-a-parse-error', '%r -> %s' % (text, out))
     for text in MALFORMED:
         out = impl.run_select(conn, text, None, execute=False)
         ctx.evaluations += 1
